@@ -110,11 +110,14 @@ def inflate_epilogue(ck, P):
     ck.decide(has("next_in", lambda e: bool(mir.calls_in(e, r"BitReader::as_ptr$"))), R, "next_in", "= bit_reader.as_ptr()", "next_in is not taken from the bit reader", where(fn))
     ck.decide(has("total_in", lambda e: bool(mir.calls_in(e, r"BitReader::as_ptr$")) and mir.mentions_field(e, "next_in") and any(x[0] == "bin" and x[1].startswith("Sub") for x in mir.walk(e))),
               R, "total_in", "+= as_ptr() - old next_in", "total_in is not advanced by the pointer difference", where(fn))
-    ck.decide(has("avail_out", lambda e: bool(mir.calls_in(e, r"Writer::capacity$")) and bool(mir.calls_in(e, r"Writer::len$"))), R, "avail_out", "= capacity - len", "avail_out is not capacity - len", where(fn))
+    def room(e):
+        # capacity - len, or the Writer method that is exactly that difference
+        return (bool(mir.calls_in(e, r"Writer::capacity$")) and bool(mir.calls_in(e, r"Writer::len$"))) or bool(mir.calls_in(e, r"Writer::remaining$"))
+    ck.decide(has("avail_out", room), R, "avail_out", "= capacity - len", "avail_out is not capacity - len", where(fn))
     ck.decide(has("next_out", lambda e: bool(mir.calls_in(e, r"Writer::next_out$"))), R, "next_out", "= writer.next_out()", "next_out is not taken from the writer", where(fn))
     ck.decide(has("total_out", lambda e: mir.mentions_field(e, "total")), R, "total_out", "= state.total", "total_out is not derived from state.total", where(fn))
     tot = [rv for bi, fp, root, rv, s in fn.field_writes() if fp[-1:] == ("total",)]
-    ck.decide(any(mir.mentions_field(e, "out_available") and mir.calls_in(e, r"Writer::len$") for e in tot), R, "state.total", "+= out_written = out_available - (capacity - len)",
+    ck.decide(any(mir.mentions_field(e, "out_available") and (mir.calls_in(e, r"Writer::len$") or mir.calls_in(e, r"Writer::remaining$")) for e in tot), R, "state.total", "+= out_written = out_available - (capacity - len)",
               "state.total is not advanced by this call's output", where(fn))
     # order: next_in is read for total_in before it is overwritten
     ti = [bi for bi, fp, root, rv, s in fn.field_writes() if fp == ("total_in",)]
@@ -170,7 +173,7 @@ def total_compensation(ck, P):
     if not ck.anchor("early count `total += writer.len()` in dispatch", bool(early), where(fn)):
         return
     rebase = {bi for bi, fp, root, rv, st in fn.field_writes() if fp[-1:] == ("out_available",)
-              and mir.calls_in(rv, r"Writer::capacity$") and mir.calls_in(rv, r"Writer::len$")}
+              and ((mir.calls_in(rv, r"Writer::capacity$") and mir.calls_in(rv, r"Writer::len$")) or mir.calls_in(rv, r"Writer::remaining$"))}
     sws = fn.enum_switches("inflate::Mode", 20)
     outs = [b for b, k in fn.exits() if k == "return"] + list(sws)
     leak = [b for b in early if not rebase or flow.reaches_avoiding(fn, [b], outs, cut_blocks=rebase - {b})]
